@@ -216,6 +216,22 @@ PObj(pi) ==
                                Bin("+", inner, Bin("+", ext, ObjE(<<Fd("t", "d", N(1))>>)))} :
                               inner \in DollarInner, ext \in {V("m"), Ap(V("g"), <<>>), ObjE(<<Fd("v", "d", N(5))>>), ObjE(<<>>)}}}}
 
+    [] pi = 5 ->
+         \* an object with assertions is bound to a name and USED ON ITS OWN FIRST (its assertions hold and have
+         \* run), and only then extended: the assertions of the combined object are late-bound to the NEW self and
+         \* run again for it, whatever has already been established about the operands
+         {Let(<<<<"p", base>>>>, ArrE(<<use, obs>>)) :
+            base \in {ObjE(<<Fd("a", "d", N(1)), OAs(Bin(">", Dot(Self, "a"), N(0)), m)>>) : m \in {None, S(<<109>>)}}
+                     \cup {Bin("+", ObjE(<<OAs(Bin(">", Dot(Self, "a"), N(0)), None)>>), ObjE(<<Fd("a", "d", N(1))>>)),
+                           ObjE(<<Fd("a", "d", N(1)), Fd("b", "h", N(2)), OAs(Bin(">", Dot(Self, "b"), Dot(Self, "a")), None)>>)},
+            use \in {Dot(V("p"), "a"), V("p"), Std("length", <<V("p")>>), N(0)},
+            obs \in UNION {{Dot(Bin("+", V("p"), ext), "a"), Bin("+", V("p"), ext), Bin("+", Bin("+", V("p"), ObjE(<<>>)), ext),
+                            Bin("+", V("p"), Bin("+", ObjE(<<Fd("c", "d", N(3))>>), ext)),
+                            Std("objectFields", <<Bin("+", V("p"), ext)>>)} :
+                           ext \in {ObjE(<<Fd("a", "d", Un("-", N(1)))>>), ObjE(<<Fd("a", "d", N(2))>>), ObjE(<<Fd("a", "h", Un("-", N(1)))>>),
+                                    ObjE(<<FdP("a", "d", Un("-", N(5)))>>), ObjE(<<Fd("b", "d", N(0))>>), ObjE(<<>>),
+                                    ObjE(<<Fd("a", "d", Un("-", N(1))), OAs(T, None)>>)}}}
+
 -----------------------------------------------------------------------------
 (* comp: array and object comprehensions                                     *)
 Srcs == {ArrE(<<N(1), N(2), N(3)>>), ArrE(<<>>), ArrE(<<N(1), ErrE>>), N(1), ArrE(<<S(<<97>>), S(<<98>>)>>)}
@@ -344,6 +360,12 @@ Bools == {T, F, N(1), SA, ArrE(<<N(1)>>), ArrE(<<ErrE>>), Nul, ErrE}
 CmpArrs == {ArrE(<<>>), ArrE(<<N(1)>>), ArrE(<<N(1), N(2)>>), ArrE(<<N(2)>>), ArrE(<<N(1), ErrE>>), ArrE(<<ErrE>>),
             ArrE(<<SA>>), ArrE(<<N(1), SA>>), SAB, N(1), ErrF}
 
+\* operands of the three-way comparison / primitive equality / assertEqual: every type, arrays that differ before
+\* or at a failing element, equal arrays, objects with a failing field that equality never / always reaches
+CmpVals == CmpArrs \cup {N(2), Neg(1), S(<<97, 98>>), S(<<>>), T, F, Nul, Fx(V("x")), ObjE(<<>>),
+                         OAB("d", N(1), "h", ErrE), OAB("d", N(1), "d", ErrE), OAB("d", N(1), "d", N(2)),
+                         ArrE(<<ArrE(<<N(1)>>), N(3)>>), ArrE(<<ArrE(<<N(1)>>), ErrE>>), ArrE(<<ArrE(<<N(2)>>), ErrE>>)}
+
 \* one library call nested in another: producers of (lazy) arrays x consumers
 Base == {ArrE(<<N(1), ErrE>>), ArrE(<<ErrE, N(1)>>), ArrE(<<N(2), N(1)>>)}
 Prod(a) == {Std("reverse", <<a>>), Std("repeat", <<a, N(2)>>), Std("flattenArrays", <<ArrE(<<a, a>>)>>),
@@ -445,6 +467,8 @@ PLib(pi) ==
                                       a \in CmpArrs, b \in CmpArrs}
     [] pi = 16 -> UNION {UNION {Cons(p) : p \in Prod(a)} : a \in Base}
     [] pi = 17 -> Must
+    [] pi = 18 -> {Std(f, <<a, b>>) : f \in {"__compare", "__compare_array", "primitiveEquals", "assertEqual"},
+                                      a \in CmpVals, b \in CmpVals}
 
 -----------------------------------------------------------------------------
 NParts ==
@@ -452,9 +476,9 @@ NParts ==
     [] Slice = "str" -> 6
     [] Slice = "lazy" -> 5
     [] Slice = "func" -> 8
-    [] Slice = "obj" -> 4
+    [] Slice = "obj" -> 5
     [] Slice = "comp" -> 12
-    [] Slice = "lib" -> 17
+    [] Slice = "lib" -> 18
 
 Part(pi) ==
   CASE Slice = "arith" -> PArith(pi)
